@@ -211,6 +211,9 @@ func closeGen(rng *hx.Rng, n int, tier string, w *hx.Writer) {
 	for i := 0; i < n; i++ {
 		r := rng.Fork()
 		nc := r.Intn(17)
+		if r.P(1, 4) {
+			nc = 17 + r.Intn(46) // beyond any plausible worker-pool size
+		}
 		var mask uint64
 		switch r.Intn(4) {
 		case 0:
